@@ -169,6 +169,46 @@ theorem C44_inactive_user_never (s : State) (hdr ck : Option String) (uid : Nat)
       subst hu'
       exact h (hact hu)
 
+/-- An ended session never comes back: RenewSession on a key whose session does not exist (signed out,
+    timed out, or created already expired) — even with a session object obtained while it was alive —
+    answers "not found" and leaves the whole state unchanged; in particular the key still does not
+    authenticate afterwards. -/
+theorem C44_renew_ended_noop (s : State) (key : String) (far : Bool) (hA : s.cfgB = false)
+    (hh : (get s.handles key).isSome) (hgone : get s.sess key = none) :
+    renewSession s key far = (s, .err .nf) := by
+  unfold renewSession
+  simp only [hA, Bool.false_eq_true, ↓reduceIte, hgone]
+  cases hk : get s.handles key with
+  | none => simp [hk] at hh
+  | some u => rfl
+
+theorem C44_renew_ended_stays_dead (s : State) (key : String) (far : Bool) (hA : s.cfgB = false)
+    (hgone : get s.sess key = none) (hdr : Option String) (hnotok : getToken hdr = none) :
+    serve (renewSession s key far).1 hdr (some key) = .http 401 false none 0 := by
+  have : (renewSession s key far).1 = s := by
+    unfold renewSession
+    simp only [hA, Bool.false_eq_true, ↓reduceIte, hgone]
+    split <;> rfl
+  rw [this]
+  simp [serve, authorizerOf, hnotok, hgone]
+
+/-- Renewal never adds a session: whatever RenewSession does, every session present afterwards was
+    present before (same key, same user). -/
+theorem C44_renew_adds_nothing (s : State) (key : String) (far : Bool) (k : String) (u : Nat) (e : Bool)
+    (h : get (renewSession s key far).1.sess k = some (u, e)) : ∃ e', get s.sess k = some (u, e') := by
+  unfold renewSession at h
+  repeat' split at h
+  all_goals first
+    | exact ⟨e, h⟩
+    | skip
+  rename_i u0 ex hg _
+  simp only [get_put] at h
+  split at h
+  · rename_i ek; subst ek
+    simp only [Option.some.injEq, Prod.mk.injEq] at h
+    exact ⟨ex, by rw [hg, h.1]⟩
+  · exact ⟨e, h⟩
+
 /-- Stored hashes in every supported format verify exactly their own password: an encoded digest of
     either variant, decoded by a decoder that knows the variant, matches `q` iff `q` is the hashed
     password (given collision-free SHA-2). -/
@@ -188,10 +228,12 @@ theorem C44_digest_only_own (ds : List Variant) (v : Variant) (m : Mangle) (p q 
 example :
     let tr := run init [.cu "u1", .sp 2001 "Password1", .cp 2001 "Password1", .cp 2001 "Password2",
       .ct 2001 "tokA" true, .req (some "token tokA") none, .ut 5001 false, .req (some "Token tokA") none,
-      .cs "u1" true, .req none (some "s1"), .us 2001 false, .req none (some "s1")]
+      .cs "u1" true, .req none (some "s1"), .us 2001 false, .req none (some "s1"),
+      .us 2001 true, .xs "s1", .renew "s1" true, .req none (some "s1")]
     tr.map (·.2) = [.okId 2001, .pw { ok := true }, .pw { ok := true }, .pw { badpw := true }, .okId 5001,
       .http 200 true (some true) 2001, .ok, .http 200 true (some false) 2001, .okKey "s1" 2001,
-      .http 200 true (some true) 2001, .ok, .http 403 false none 0] := by
+      .http 200 true (some true) 2001, .ok, .http 403 false none 0,
+      .ok, .ok, .err .nf, .http 401 false none 0] := by
   decide
 
 end Influx.Props.C44
